@@ -273,7 +273,8 @@ func runTCP(st Stim) Trace {
 	} else {
 		mon = inactivity.New(time.Duration(st.P)*time.Second, onInactive)
 	}
-	t := conns.NewTCP(nil, tcpclient.WithInactivityMonitor(mon))
+	// (every second history: the connection is configured to ignore the peer's CSMs - and nothing but its CSMs)
+	t := conns.NewTCP(func(cfg *tcpclient.Config) { cfg.DisablePeerTCPSignalMessageCSMs = st.T%2 == 0 }, tcpclient.WithInactivityMonitor(mon))
 	defer t.Close()
 	pl := &pipeline{on: st.Pipelined && !st.KeepAlive}
 	pingToks := [][]byte{}
